@@ -101,10 +101,10 @@ fn gen_text(rng: &mut Rng, with_max: bool) -> String {
 pub fn generate(seed: u64, thorough: bool) -> Vec<String> {
     let mut rng = Rng::new(seed ^ 0xC16);
     let mut out = vec![];
-    let ntext = if thorough { 120 } else { 25 };
+    let ntext = if thorough { 500 } else { 25 };
     for combo in 0..16 {
         let (nl_off, ws_off, allow, two) = (combo & 1 != 0, combo & 2 != 0, combo & 4 != 0, combo & 8 != 0);
-        for variant in 0..(if thorough { 4 } else { 2 }) {
+        for variant in 0..(if thorough { 6 } else { 2 }) {
             let par = gen_par(&mut rng, nl_off, ws_off, allow, two);
             let Ok(d) = describe(&par) else {
                 out.push("note:grammar-rejected-by-parol".into());
